@@ -81,4 +81,27 @@ def rfcReceiveLimit (weAreClient : Bool) (ours : Params) (id : Nat) : Int :=
   else if (openedByClient ∧ weAreClient = true) ∨ (¬ openedByClient ∧ weAreClient = false) then ours.bidiLocal
   else ours.bidiRemote
 
+/-! ### a spec-driven client: the Config is raised to cover what the QUICSpec advertises
+(u_connection.go `configCoveringAdvertised`, applied by `newUClientConnection` before `preSetup`) -/
+
+def pick (isMax : Bool) (a b : Int) : Int := if isMax then max a b else min a b
+
+/-- the four receive-window fields of `configCoveringAdvertised(conf, p)`; which of `max` / `min`
+    the Go code applies is a regenerated fact -/
+def coveringConfig (c : Config) (adv : Params) : Config :=
+  let ic := pick coverConnIsMax c.initialConnectionReceiveWindow adv.maxData
+  let is := pick coverStreamOuterIsMax c.initialStreamReceiveWindow
+              (pick coverStreamInnerIsMax (pick coverStreamInnerIsMax adv.bidiLocal adv.bidiRemote) adv.uni)
+  { initialConnectionReceiveWindow := ic,
+    maxConnectionReceiveWindow := if coverMaxWindowsFollow then max c.maxConnectionReceiveWindow ic else c.maxConnectionReceiveWindow,
+    initialStreamReceiveWindow := is,
+    maxStreamReceiveWindow := if coverMaxWindowsFollow then max c.maxStreamReceiveWindow is else c.maxStreamReceiveWindow }
+
+/-- the configuration a client's flow controllers are built from: a spec-driven client
+    (`spec = some advertised`) covers the advertised parameters, a plain client uses the Config -/
+def enforcedConfig (c : Config) (spec : Option Params) : Config :=
+  match spec with
+  | some adv => if coverAppliedInUClient then coveringConfig c adv else c
+  | none => c
+
 end Uquic.Model.FlowInit
